@@ -41,6 +41,21 @@ void h_neg(void) { OPERANDS2 mpz_neg(a); }
 void h_add(void) { OPERANDS2 mpz_add(a, b); }
 void h_sub(void) { OPERANDS2 mpz_sub(a, b); }
 
+void h_mul(void) { OPERANDS2 mpz_mul(a, b); }
+void h_div(void) { OPERANDS2 mpz_div(a, b); }
+void h_mod(void) { OPERANDS2 mpz_mod(a, b); }
+
+/* primitives: enforced with MULLO/MULHI/UDIV/UREM concrete and the ghost words unconstrained, so
+   the lemma instances in their contracts are proved for all values of the ghosts */
+void h_umul64(void) { uint64_t x = nondet_u64(), y = nondet_u64(); verif_umul64(x, y); }
+void h_udiv64(void)
+{
+  uint64_t x = nondet_u64(), y = nondet_u64();
+  g_mul_a = nondet_u64(); g_mul_b = nondet_u64();
+  verif_udiv64(x, y);
+}
+void h_urem64(void) { uint64_t x = nondet_u64(), y = nondet_u64(); verif_urem64(x, y); }
+
 /* termination of the add/sub mutual recursion: whole bodies, no contract replaced, recursion
    unwound 4 times with unwinding assertions over fully symbolic operands. */
 void h_term_add(void) { OPERANDS2 mpz_add(a, b); }
